@@ -155,11 +155,25 @@ func c05Main(r *run.Runner) {
 			})
 		})
 	}
+	// long implicit column names and long quoted names (sizes 0..300 around a quote / backslash)
+	r.Sweep("long-aliases", 301, func(w *run.Worker, item int64) {
+		pad := strings.Repeat("a", int(item))
+		for _, tail := range []string{`"x"`, `'y'`, `"\\"`, "`q\"r`", `"%s"`} {
+			c05One(w, "T | extend strcat("+pad+", "+tail+")")
+			c05One(w, "T | summarize max("+pad+") by strcat("+pad+", "+tail+"), b | count")
+			c05One(w, "T | project `"+pad+`"`+"` = "+tail+" | as `"+pad+`\`+"` | join (U) on k")
+		}
+	})
+	joins := c03Programs(r.Thorough(), 3)
+	r.Sweep("join-programs", int64(len(joins)), func(w *run.Worker, item int64) {
+		pr := gen.Print(gen.Single(joins[item]))
+		c05One(w, pr.Layout(pr.Uniform(" ")).Source)
+	})
 	b3 := map[string]any{}
 	if c05Pipelines != nil {
 		b3 = c05Pipelines(r)
 	}
-	r.Extra["bounds"] = map[string]any{"token_sequences": b1, "corruptions": b2, "corpus_programs": len(corpus), "expr_internal_nodes": N, "pipelines": b3}
+	r.Extra["bounds"] = map[string]any{"token_sequences": b1, "corruptions": b2, "corpus_programs": len(corpus), "expr_internal_nodes": N, "pipelines": b3, "join_programs": len(joins)}
 	r.Sample("T | take - 1 | where 'x' | as by")
 	r.Sample("T | join ( R | join ( C ) on k ) on k | count")
 }
